@@ -136,7 +136,7 @@ def history_task(task, wdir, res):
                     clock_hi[0] = max(clock_hi[0], int(node.meta("clock peek").get("now") or 0))
                 node = lt.restart_clean()
                 if stepping:
-                    clock_ms[0] = clock_hi[0] + 5000
+                    clock_ms[0] = clock_hi[0] + 3600000      # far beyond anything the shutdown path may still have read
                     clock_hi[0] = clock_ms[0]
                     node.meta(f"clock auto {clock_ms[0]} 300")
                 tier_update(flushed)
